@@ -78,5 +78,5 @@ def run(ctx):
                 region = '|%s,%s' % (pts[0][2], 'corner(y,v<=1e-3)' if corner else 'elsewhere')
             ctx.violation('C08|%s|%s|%s%s' % (o['fam'], law, O.theta_bucket(o['fam'], float(o['theta'])), region),
                           '%s percent_point at theta=%s violates %s' % (o['fam'], o['theta'], law),
-                          {'fam': o['fam'], 'theta': o['theta'], 'law': law})
+                          {'fam': o['fam'], 'theta': o['theta'], 'law': law, 'rerun': ['harness.props.C08._observe', list(jobs[i])]})
     ctx.exhaustive = False
